@@ -34,6 +34,9 @@ import (
 	firstaggregate "github.com/attestantio/vouch/strategies/aggregateattestation/first"
 	bestattdata "github.com/attestantio/vouch/strategies/attestationdata/best"
 	firstattdata "github.com/attestantio/vouch/strategies/attestationdata/first"
+	majorityattdata "github.com/attestantio/vouch/strategies/attestationdata/majority"
+	latestroot "github.com/attestantio/vouch/strategies/beaconblockroot/latest"
+	majorityroot "github.com/attestantio/vouch/strategies/beaconblockroot/majority"
 	firstheader "github.com/attestantio/vouch/strategies/beaconblockheader/first"
 	firstproposal "github.com/attestantio/vouch/strategies/beaconblockproposal/first"
 	firstroot "github.com/attestantio/vouch/strategies/beaconblockroot/first"
@@ -74,6 +77,11 @@ type Case struct {
 	// (alternately) two root-changing head events arrive close together, or a root-changing head event
 	// arrives while the preparation of the next epoch is waiting for its duties (0: never).
 	OverlapEvery uint64 `json:"overlap_every"`
+	// RootStrategy: strategy for beacon block roots: first (default) | majority | latest
+	RootStrategy string `json:"root_strategy,omitempty"`
+	// AccountsFaultEvery: at every k-th reorg the accounts provider fails (alternately with an error
+	// and with an empty result) while the head event is handled, i.e. during the duty refresh (0: never)
+	AccountsFaultEvery uint64 `json:"accounts_fault_every,omitempty"`
 }
 
 // pattern is the node's duty source: plain arithmetic on (epoch, version).
@@ -170,7 +178,9 @@ func genCase(t *rapid.T) Case {
 		p.Validators = append(p.Validators, base+uint64(i*i+i))
 	}
 	c.StartEpoch = rapid.SampledFrom([]uint64{1, 3, 7, 20}).Draw(t, "startEpoch")
-	c.Strategy = rapid.SampledFrom([]string{"first", "best"}).Draw(t, "strategy")
+	c.Strategy = rapid.SampledFrom([]string{"first", "first", "best", "best", "majority"}).Draw(t, "strategy")
+	c.RootStrategy = rapid.SampledFrom([]string{"first", "first", "majority", "latest"}).Draw(t, "rootStrategy")
+	c.AccountsFaultEvery = rapid.SampledFrom([]uint64{0, 1, 2, 3}).Draw(t, "accountsFaultEvery")
 	c.RealScheduler = rapid.IntRange(0, 2).Draw(t, "realScheduler") == 0
 	c.Providers = rapid.IntRange(2, 4).Draw(t, "providers")
 	c.NodeMix = rapid.SampledFrom([]string{"healthy", "late", "same-instant", "some-never", "mixed", "mixed"}).Draw(t, "nodeMix")
@@ -259,6 +269,9 @@ type runner struct {
 	attestations    int64
 	maxParked       int
 	overlaps        int
+	orphans         int
+	orphanSeen      map[string]bool
+	accountFaults   int
 	notQuiescent    int
 	inconclusiveWhy string
 }
@@ -284,12 +297,21 @@ func (r *runner) services(ctx context.Context, w *c03world.World, sched schedule
 	var contrib eth2client.SyncCommitteeContributionProvider
 	var aggAtt eth2client.AggregateAttestationProvider
 	var err error
-	if r.c.Strategy == "best" {
+	if r.c.Strategy == "best" || r.c.Strategy == "majority" {
 		attData, err = bestattdata.New(ctx, bestattdata.WithLogLevel(lvl), bestattdata.WithClientMonitor(mon), bestattdata.WithProcessConcurrency(4),
 			bestattdata.WithAttestationDataProviders(providersOf(r, func(n *node) eth2client.AttestationDataProvider { return n })),
 			bestattdata.WithTimeout(strategyTimeout), bestattdata.WithChainTime(w.Clock), bestattdata.WithBlockRootToSlotCache(blockRootToSlot{}))
 		if err != nil {
 			return s, err
+		}
+		if r.c.Strategy == "majority" {
+			attData, err = majorityattdata.New(ctx, majorityattdata.WithLogLevel(lvl), majorityattdata.WithClientMonitor(mon), majorityattdata.WithProcessConcurrency(4),
+				majorityattdata.WithAttestationDataProviders(providersOf(r, func(n *node) eth2client.AttestationDataProvider { return n })),
+				majorityattdata.WithTimeout(strategyTimeout), majorityattdata.WithChainTime(w.Clock), majorityattdata.WithBlockRootToSlotCache(blockRootToSlot{}),
+				majorityattdata.WithThreshold(2))
+			if err != nil {
+				return s, err
+			}
 		}
 		contrib, err = bestcontribution.New(ctx, bestcontribution.WithLogLevel(lvl), bestcontribution.WithClientMonitor(mon), bestcontribution.WithProcessConcurrency(4),
 			bestcontribution.WithSyncCommitteeContributionProviders(providersOf(r, func(n *node) eth2client.SyncCommitteeContributionProvider { return n })),
@@ -323,18 +345,46 @@ func (r *runner) services(ctx context.Context, w *c03world.World, sched schedule
 			return s, err
 		}
 	}
-	rootPrv, err := firstroot.New(ctx, firstroot.WithLogLevel(lvl), firstroot.WithClientMonitor(mon),
-		firstroot.WithBeaconBlockRootProviders(providersOf(r, func(n *node) eth2client.BeaconBlockRootProvider { return n })),
-		firstroot.WithTimeout(strategyTimeout))
+	var rootPrv eth2client.BeaconBlockRootProvider
+	rootLabel := "beaconblockroot/first"
+	switch r.c.RootStrategy {
+	case "majority":
+		rootLabel = "beaconblockroot/majority"
+		rootPrv, err = majorityroot.New(ctx, majorityroot.WithLogLevel(lvl), majorityroot.WithClientMonitor(mon), majorityroot.WithProcessConcurrency(4),
+			majorityroot.WithBeaconBlockRootProviders(providersOf(r, func(n *node) eth2client.BeaconBlockRootProvider { return n })),
+			majorityroot.WithTimeout(strategyTimeout), majorityroot.WithBlockRootToSlotCache(blockRootToSlot{}))
+	case "latest":
+		rootLabel = "beaconblockroot/latest"
+		rootPrv, err = latestroot.New(ctx, latestroot.WithLogLevel(lvl), latestroot.WithClientMonitor(mon), latestroot.WithProcessConcurrency(4),
+			latestroot.WithBeaconBlockRootProviders(providersOf(r, func(n *node) eth2client.BeaconBlockRootProvider { return n })),
+			latestroot.WithTimeout(strategyTimeout), latestroot.WithBlockRootToSlotCache(blockRootToSlot{}))
+	default:
+		rootPrv, err = firstroot.New(ctx, firstroot.WithLogLevel(lvl), firstroot.WithClientMonitor(mon),
+			firstroot.WithBeaconBlockRootProviders(providersOf(r, func(n *node) eth2client.BeaconBlockRootProvider { return n })),
+			firstroot.WithTimeout(strategyTimeout))
+	}
 	if err != nil {
 		return s, err
 	}
-	proposalPrv, err := firstproposal.New(ctx, firstproposal.WithLogLevel(lvl), firstproposal.WithClientMonitor(mon),
+	// the real strategies, as the services see them: wrapped so that their calls are known to the harness
+	strat := r.c.Strategy
+	rawRoots := []any{attData, contrib, aggAtt, rootPrv}
+	attLabel := "attestationdata/" + strat
+	if strat == "majority" {
+		strat = "best"
+	}
+	attData = trAttData{r.pool, attLabel, attData}
+	contrib = trContribution{r.pool, "synccommitteecontribution/" + strat, contrib}
+	aggAtt = trAggregate{r.pool, "aggregateattestation/" + strat, aggAtt}
+	rootPrv = trRoot{r.pool, rootLabel, rootPrv}
+	var proposalPrv eth2client.ProposalProvider
+	proposalRaw, err := firstproposal.New(ctx, firstproposal.WithLogLevel(lvl), firstproposal.WithClientMonitor(mon),
 		firstproposal.WithProposalProviders(providersOf(r, func(n *node) eth2client.ProposalProvider { return n })),
 		firstproposal.WithTimeout(strategyTimeout))
 	if err != nil {
 		return s, err
 	}
+	proposalPrv = trProposal{r.pool, "beaconblockproposal/first", proposalRaw}
 
 	att, err := standardattester.New(ctx, standardattester.WithLogLevel(lvl), standardattester.WithProcessConcurrency(4), standardattester.WithChainTime(w.Clock),
 		standardattester.WithSpecProvider(w.Node), standardattester.WithAttestationDataProvider(attData), standardattester.WithAttestationsSubmitter(r.sink),
@@ -376,10 +426,10 @@ func (r *runner) services(ctx context.Context, w *c03world.World, sched schedule
 	if err != nil {
 		return s, err
 	}
-	s.BeaconBlockHeadersProvider, s.SignedBeaconBlockProvider = headerPrv, blockPrv
+	s.BeaconBlockHeadersProvider, s.SignedBeaconBlockProvider = trHeader{r.pool, "beaconblockheader/first", headerPrv}, trBlock{r.pool, "signedbeaconblock/first", blockPrv}
 	s.Attester, s.SyncAggregator, s.SyncMessenger, s.BeaconCommitteeSubscriber, s.AttAggregator = att, agg, msg, sub, attAgg
 	s.Proposer = &stratProposer{w: w, prv: proposalPrv}
-	r.roots = []any{att, agg, msg, sub, attData, contrib, aggAtt, rootPrv, proposalPrv, headerPrv, blockPrv}
+	r.roots = append([]any{att, agg, msg, sub, proposalRaw, headerPrv, blockPrv}, rawRoots...)
 	return s, nil
 }
 
@@ -389,7 +439,7 @@ func (r *runner) services(ctx context.Context, w *c03world.World, sched schedule
 // inside vouch code (found in the stack dump; they are a finding at the end of
 // the run and must not stop the world from becoming quiescent meanwhile).
 func (r *runner) extraGoroutines() int {
-	n := int(r.pool.held.Load())
+	n := int(r.pool.held.Load()) + int(r.pool.hanging.Load())
 	if r.rs != nil {
 		n += r.rs.goroutines()
 	}
@@ -556,6 +606,23 @@ func (r *runner) whileAttesting(slot uint64) {
 	}
 }
 
+// checkProviderCalls: a strategy call that has returned must not leave provider
+// calls running with a live context: whatever it started and did not wait for
+// must have been cancelled (the node may never answer).
+func (r *runner) checkProviderCalls() {
+	for _, pc := range r.pool.orphans() {
+		sig := "provider-call-not-cancelled:strategies/" + pc.sc.label
+		if r.orphanSeen[sig] {
+			r.orphans++
+			continue
+		}
+		r.orphanSeen[sig] = true
+		r.orphans++
+		r.add(sig, "a %s request to node %d made in slot %d is still running at clock slot %d although the %s strategy call that made it returned in slot %d, and its context is still live: nothing will ever end it if the node does not answer",
+			pc.what, pc.idx, pc.slot, r.w.Slot(), pc.sc.label, pc.sc.endSlot.Load())
+	}
+}
+
 // history lists the recent scheduler operations on the attestation job of a slot.
 func (r *runner) history(slot uint64) string {
 	return r.historyOf(fmt.Sprintf("Attestations for slot %d", slot))
@@ -719,11 +786,18 @@ func (r *runner) prepareAndHead(epoch, slot uint64) error {
 func (r *runner) run() error {
 	c := r.c
 	r.pool = newPool(c.NodeMix, c.Providers)
+	r.pool.clockSlot = func() uint64 {
+		if r.w == nil {
+			return 0
+		}
+		return r.w.Slot()
+	}
 	r.sink = &sink{}
 	r.parked = 0
 	r.series = map[string][]int{}
 	r.stale = map[uint64]bool{}
 	r.notPending = map[uint64]bool{}
+	r.orphanSeen = map[string]bool{}
 	r.ctx = context.Background()
 	opt := c03world.Options{
 		Services:        nil,
@@ -812,9 +886,15 @@ func (r *runner) run() error {
 				if err := w.AdvanceTo(w.StartOfSlot(slot).Add(slotDur / 10)); err != nil {
 					return err
 				}
+				fault := reorg && c.AccountsFaultEvery > 0 && uint64(r.reorgs)%c.AccountsFaultEvery == 0
+				if fault {
+					w.Accounts.FailNext(3, []string{"error", "empty"}[r.accountFaults%2])
+					r.accountFaults++
+				}
 				if err := w.Head(0); err != nil {
 					return err
 				}
+				w.Accounts.FailNext(0, "")
 				if reorg {
 					after := r.attestJobSlots()
 					for s := range before {
@@ -835,6 +915,7 @@ func (r *runner) run() error {
 				return err
 			}
 			r.checkPending()
+			r.checkProviderCalls()
 		}
 		r.sample()
 		w.Log.Trim(4000)
@@ -961,6 +1042,8 @@ func check(t ev.TB, c *Case) {
 	add(simultaneous, "three-or-more-simultaneous-responders")
 	add(r.pool != nil && r.pool.never.Load() > 0, "node-never-answered")
 	add(r.overlaps > 0, "overlapping-duty-refreshes")
+	add(r.accountFaults > 0, "accounts-provider-fault-during-refresh")
+	add(true, "root-strategy:"+c.RootStrategy)
 	add(c.DutyOff > 0, "duty-gaps-of-two-or-more-epochs")
 	add(c.RealScheduler, "real-advanced-scheduler")
 	add(!c.RealScheduler, "reference-scheduler")
